@@ -62,9 +62,10 @@ def adduct_values(level):
         pairs = [adduct_text(a, i) + ',' + adduct_text(b, j) for (a, i), (b, j) in
                  [((2, 'Na+'), (1, 'H+')), ((2, 'Na+'), (-1, 'H+')), ((1, 'Mg2+'), (1, 'H+')), ((1, 'K+'), (1, 'Na+')),
                   ((3, 'H+'), (-1, 'e-')), ((1, 'Cl-'), (1, 'I-')), ((2, 'Ca2+'), (-2, 'H+')), ((1, 'Li+'), (2, 'K+'))]]
-        return singles + pairs + ['+H+', '+2H+']
+        # the same ion named twice in one list accumulates
+        return singles + pairs + ['+H+', '+2H+', '+Na+,+Na+', '+H+,+Na+,+H+', '+K+,-H+,+K+']
     if level == 2:
-        return ['+Na+', '+2Na+', '-H+', '+Mg2+', '+2Na+,+H+', '+Cl-', '+e-', '+H+', '-2K+']
+        return ['+Na+', '+2Na+', '-H+', '+Mg2+', '+2Na+,+H+', '+Cl-', '+e-', '+H+', '-2K+', '+Na+,+Na+']
     return ['+Na+', '+2Na+,-H+', '+H+']
 
 
